@@ -18,8 +18,13 @@ def designs(draw, max_stmts=6):
     npi = draw(st.integers(0, 3))
     npo = draw(st.integers(0, 3))
     names = draw(st.lists(st.sampled_from(TOP_PORTS), min_size=npi + npo, max_size=npi + npo, unique=True))
-    inputs = [[n, draw(st.integers(1, 3))] for n in names[:npi]]
-    outputs = [[n, draw(st.integers(1, 3))] for n in names[npi:]]
+    def width(hi):
+        # now and then past 9: two-digit bit indices in the tokens
+        if draw(st.integers(0, 15)) == 0:
+            return draw(st.integers(10, 13))
+        return draw(st.integers(1, hi))
+    inputs = [[n, width(3)] for n in names[:npi]]
+    outputs = [[n, width(3)] for n in names[npi:]]
     if inputs and draw(st.integers(0, 3)) == 0:
         # a port listed under .inputs and under .outputs is an inout port
         outputs.append(list(draw(st.sampled_from(inputs))))
@@ -38,7 +43,7 @@ def designs(draw, max_stmts=6):
         tokens.extend([[n, None]] if w == 1 else [[n, i] for i in range(w)])
     internal = draw(st.lists(st.sampled_from(NET_NAMES), min_size=1, max_size=4, unique=True))
     for n in internal:
-        w = draw(st.integers(1, 3))
+        w = width(3)
         tokens.extend([[n, None]] if w == 1 else [[n, i] for i in range(w)])
     net = st.sampled_from(tokens)
     stmts = []
